@@ -191,6 +191,24 @@ def same_number(observed, expected, rel=F(1, 10 ** 9)):
     return abs(o - expected) <= rel * abs(expected)
 
 
+def _power_of_two(q):
+    n, d = q.numerator, q.denominator
+    return n > 0 and n & (n - 1) == 0 and d & (d - 1) == 0
+
+
+def scaled(x, y, factor, rel=F(1, 10 ** 9)):
+    """Is the observed x equal to the observed y times factor?  Exact when the factor is a power of two (the
+    scaling then commutes with float rounding), within the declared relative tolerance otherwise."""
+    try:
+        fx, fy = F(x), F(y)
+    except (TypeError, ValueError, OverflowError):
+        return False
+    want = fy * F(factor)
+    if _power_of_two(F(factor)):
+        return fx == want
+    return abs(fx - want) <= rel * abs(want)
+
+
 # --------------------------------------------------------------------------- export
 def time_bounds(kind, coords):
     t0, _, t1, _ = gm.extent(kind, coords)
